@@ -110,6 +110,12 @@ def run(rep, repo, tier):
                       got='reader field %s; writer header %s' % (k, wh), want='%s at the same position' % opt, construct='header %s: reader[%s] vs writer %s' % (attr, k, wh))
         # ---- sections ----
         wt = writer_table(wf, cls)
+        from ..writerfacts import list_alt_problems
+        for cnt_, row_, line_ in wt:
+            for fld_ in doc.fields_of(line_)[1:]:
+                for prob in list_alt_problems(fld_):
+                    rep.fail('C09.R1', w, 'second-side preference tokens are written exactly when the instance has second-side lists %s' % cfg, got=prob, want='tokens iff the lists exist',
+                             construct='second-side list written under the inverted condition')
         counts = [c for c, _, _ in wt]
         want_counts = ['n1', 'n2'] if na == 2 else ['n1', 'n2', 'n3']
         rep.check(counts == want_counts, 'C09.R2', w, 'the generator writes the sections in the order and number the solver expects %s' % cfg, got=counts, want=want_counts,
